@@ -1,4 +1,5 @@
 import Zc.Proofs.Register
+import Zc.Model.Responder
 /-! # C09 — registration probes first, detects conflicts, then announces completely
 
 Model: `Zc.Register` (`Model/Register.lean`).  One `async_register_service` call is a run of *atomic blocks* of
@@ -391,6 +392,67 @@ theorem C09_conflicting_name_not_owner_partial (svc : Svc) (old : String) (hn : 
     (hs : svc.server ≠ old) : ∀ r ∈ (broadcastPkt svc none true).answers, r.name ≠ old := by
   intro r hr
   rcases C09_announce_owners svc r hr with h | h | h <;> rw [h] <;> assumption
+
+/-! ### "… or answered for": the registry key follows the name, and the responder finds instances by that key
+
+`registerRun` files the final service under `lower (final name)` (`C09_only_then`).  That the *real* registry does so rests on
+`ServiceInfo.key` following the name through every rename: the constructor and the `name` setter both assign
+`self.key = name.lower()` (shape pins `src_info_ctor_key`, `src_info_name_setter_key`; making `key` a stale attribute — second review,
+escape E2 — breaks `C09_key_follows_name`, and the harness asks for the abandoned and for the held name after every rename).
+The responder's choice of records is C03's model (`Zc.instancePart`, `Zc.pointerPart`: look-ups in the registry by lower-cased name). -/
+
+/-- the registry key of an info is its lower-cased name at construction and after every rename -/
+theorem C09_key_follows_name :
+    Gen.Register.src_info_ctor_key = "name.lower()" ∧ Gen.Register.src_info_name_setter_key = "name.lower()" :=
+  Zc.GenFacts.Register.info_key_follows_name
+
+/-- a question for `name` is an SRV / TXT / ANY question about an instance the registry does not hold: no instance record answers it -/
+theorem instancePart_none (lower : String → String) (reg : Zc.Registry) (q : Question)
+    (h : Zc.sget lower (lower q.name) reg.services = none) : Zc.instancePart lower reg q = [] := by
+  unfold Zc.instancePart
+  split
+  · simp [h]
+  · rfl
+
+/-- **The conflicting name is never answered for.**  `reg'` = the registry after it accepted the service under its final name
+(`C09_only_then`: key `lower final`; `C09_abandoned_never_returns`: the final name is none of the names the registration moved away
+from).  A question for an abandoned name `old` — another key (`hne`: names that differ only in case are one name, as for the cache)
+that the instance did not hold before this registration (`hfree`; a name it does hold through an earlier registration is answered for
+that registration) — finds no instance in the registry: no SRV / TXT strategy (`Zc.instancePart`), and the pointer answers to a
+question for the *type* are built from registered services only, none of which has the abandoned key. -/
+theorem C09_abandoned_not_answered (lower : String → String) (reg reg' : Zc.Registry) (s : Zc.Svc) (old : String) (q : Question)
+    (hadd : reg.add lower s = .ok reg') (hq : lower q.name = lower old) (hne : lower old ≠ lower s.name)
+    (hfree : Zc.sget lower (lower old) reg.services = none) :
+    Zc.instancePart lower reg' q = [] ∧ Zc.sget lower (lower old) reg'.services = none := by
+  have hs : reg'.services = reg.services ++ [s.clearMemo] := by
+    simp only [Zc.Registry.add] at hadd
+    split at hadd
+    · simp at hadd
+    · simp only [Except.ok.injEq] at hadd; subst hadd; rfl
+  have hnone : Zc.sget lower (lower old) reg'.services = none := by
+    unfold Zc.sget at hfree ⊢
+    rw [hs, List.find?_append, hfree]
+    simp only [Option.none_or, List.find?_cons, List.find?_nil]
+    have : lower s.clearMemo.name ≠ lower old := by
+      simpa [Zc.Svc.clearMemo] using fun h => hne h.symm
+    simp [this]
+  exact ⟨instancePart_none lower reg' q (by rw [hq]; exact hnone), hnone⟩
+
+/-- … while the name it completed under *is* held: a question for it finds the service -/
+theorem C09_held_name_found (lower : String → String) (reg reg' : Zc.Registry) (s : Zc.Svc)
+    (hadd : reg.add lower s = .ok reg') : ∃ s', Zc.sget lower (lower s.name) reg'.services = some s' ∧ s'.name = s.name := by
+  simp only [Zc.Registry.add] at hadd
+  split at hadd
+  · simp at hadd
+  · rename_i hnot
+    simp only [Except.ok.injEq] at hadd
+    subst hadd
+    have hn : Zc.sget lower (lower s.name) reg.services = none := by
+      simpa [Zc.Svc.key] using hnot
+    refine ⟨s.clearMemo, ?_, by simp [Zc.Svc.clearMemo]⟩
+    unfold Zc.sget at hn ⊢
+    rw [List.find?_append, hn]
+    simp [Zc.Svc.clearMemo]
 
 /-! ### one instance never holds the same name twice -/
 
